@@ -1,4 +1,5 @@
 import ShroudVerif.Model.Decl
+import ShroudVerif.Model.CxxMeaning
 import ShroudVerif.Gen.DeclTables
 import Driver.Codec
 /-!
@@ -107,5 +108,31 @@ def handleToks (args : List String) : String :=
   match parse env ts with
   | .ok d => "ok " ++ serToks d.toks ++ " | " ++ optToks (d.argToks env false) ++ " | " ++ optToks (d.argToks env true)
   | _ => "not-ok"
+
+/-- `meaning <token>*` -> reference C++ meaning of the token list and what Shroud's parse denotes:
+    `M <name|~> <valid> <type> | D <name|~> <type>`; `M none` / `D none` when undefined -/
+def handleMeaning (args : List String) : String :=
+  let ts := (args.filter (· ≠ "")).map (fun a => reclass (decTok a))
+  let m := match Shroud.Cxx.cxxMeaning env ts with
+    | some (n, t) => "M " ++ (match n with | some x => encStr x | none => "~") ++ " " ++ b01 t.valid ++ " " ++ encStr t.text
+    | none => "M none"
+  let d := match parse env ts with
+    | .ok d => (match Shroud.Cxx.denote env d with
+        | some t => "D " ++ (match Shroud.Cxx.declName d with | some x => encStr x | none => "~") ++ " " ++ encStr t.text
+        | none => "D none")
+    | _ => "D not-ok"
+  m ++ " | " ++ d
+
+/-- `fund <specifier>*` -> canonical C++ fundamental type of a specifier list, and the C++ type of the
+    typemap `get_canonical_typemap` selects: `<fundName|none> | <cxx_type|none|reject>` -/
+def handleFund (args : List String) : String :=
+  let sp := (args.filter (· ≠ "")).map decStr
+  let f := match Shroud.Cxx.fundName sp with | some n => encStr n | none => "none"
+  let c := match canonical env { specifier := sp } with
+    | .ok s => (match env.typeInfo s.typemap with
+        | some ti => (match ti.cxxType with | some n => encStr n | none => "none")
+        | none => "none")
+    | _ => "reject"
+  f ++ " | " ++ c
 
 end Driver
